@@ -84,6 +84,31 @@ CHECKS["C19"] = dict(
     note=TB + "TCP, sync.Cond and scheduling are modelled (accept order arbitrary); real timing is sampled. Hooks: "
               "p2p/verif_point_{on,off}.go + verifPoint calls.")
 
+CHECKS["C09"] = dict(
+    category="translation_validation", design_ref="DESIGN.md section 2 / C09",
+    technique="Lean-proved equivalence checker (constant/copy abstract interpretation + witnessed structural matching) run on real compiler outputs; Lean theorems for topological reorderings and AssignLevels; bit-parallel simulation oracle",
+    text=("checkRefines is proved sound in Lean (C09_checker_sound: an accepted pair of circuits computes equal outputs on every "
+          "input). On every run it is executed on the raw / ConstPropagate / prune-off / prune-on circuits of corpus and "
+          "generated MPCL programs, per target and multiplier threshold, giving per-program equivalence for ALL inputs. "
+          "C09_levels / C09_gmw_schedule prove Compile's level sort and the GMW evaluation schedule are "
+          "evaluation-preserving. Threshold and Yao-vs-GMW pairs (different algorithms) are tested by bit-parallel "
+          "simulation, exhaustive for <= 16 input bits. The target axis is false on the pinned tree "
+          "(C09_target_equivalence_fails; three GMW-divider known findings)."),
+    note=TB + "Lean code generation is trusted for running the checker; the witness search (Go) is untrusted; front end and "
+              "builders are not modelled; threshold/target equivalence is tested, not proved.")
+
+CHECKS["C11"] = dict(
+    category="proof", design_ref="DESIGN.md section 2 / C11",
+    technique="Lean 4 theorems (induction over operation lists and over the copy/fill loops, arbitrary writer schedule and fragmentation oracle, refinement of a physical buffer-ring model) + exact model/implementation correspondence on a recording, fragmenting transport",
+    text=("Theorems C11_conn_send_inv, C11_conn_sched_indep, C11_conn_close_delivers, C11_conn_recv(_from), C11_conn_roundtrip, "
+          "C11_conn_duplex, C11_conn_ring_refines hold for every operation sequence, flush placement, writer interleaving, "
+          "read fragmentation and payload size: typed receives return exactly the values sent, in order; Close delivers "
+          "everything; counters equal bytes moved; the three-buffer ring never aliases. The same Lean definitions are "
+          "executed on every run against the real p2p.Conn over a seeded fragmenting transport and over p2p.Pipe with every "
+          "observable compared (Write chunk lengths, wire digest, Stats, received values, Read pattern, unread rest)."),
+    note=TB + "Go channels assumed FIFO; conn.Write reads the queued buffer atomically; explicit domain guard Val.Valid "
+              "(outside it the Go code truncates); writerErr error path and Conn.Receive not covered.")
+
 NOT_YET = {}
 
 PROPS = [json.loads(l)["id"] for l in open(os.path.join(VERIF, "properties.jsonl"))]
